@@ -71,9 +71,11 @@ def specs_for(tier, seed):
     eps = ["A", "B", "C"]
     for pi, pat in enumerate(patterns(tier, seed)):
         variants = [("first registration", {}), ("forgotten between runs", {"forget": True}), ("contacts changed between runs", {"edit": True}),
-                    ("CA answers accountDoesNotExist to newOrder", {"adne": True})]
+                    ("CA answers accountDoesNotExist to newOrder", {"adne": True}),
+                    # the CA reads a request (and consumes its nonce) but the answer never arrives; the other certificates carry on
+                    ("answer lost on a shared endpoint", {"lost": True})]
         if tier != "thorough":
-            variants = [variants[0], variants[1 + (pi + seed) % 3]]
+            variants = [variants[0], variants[1 + (pi + seed) % 4]] + ([variants[4]] if (pi + seed) % 4 != 3 else [])
         for vname, v in variants:
             for workers in ((1, 2, 4, 16) if tier == "thorough" else (rng.choice([1, 2, 4, 16]),)):
                 used_a = sorted({a for a, _ in pat})
@@ -88,6 +90,8 @@ def specs_for(tier, seed):
                     sc = []
                     if v.get("adne"):
                         sc = [{"kind": "newOrder", "nth": 1 + rng.randrange(2), "fault": "acme:accountDoesNotExist:400", "repeat": 1}]
+                    if v.get("lost"):
+                        sc = [{"kind": rng.choice(["newOrder", "newAccount", "authz"]), "nth": 1, "fault": "drop_after", "repeat": 1}]
                     endpoints[eps[e]] = {"ca": {"delay": delay, "seed": dseed}, "script": sc}
                 accounts = [{"name": accs[a], "contacts": [{"mailto": "%s@example.org" % accs[a]}]} for a in used_a]
                 steps = [("run", {"attempts": 1, "env": {"TOKIO_WORKER_THREADS": str(workers)}})]
@@ -132,8 +136,9 @@ def locks_layer(x):
                 if d.get("created"):
                     acct_key[(e["ep"], d["acct"])] = d["thumb"]
                     out.append({"e": "Created", "key": d["thumb"], "ep": e["ep"]})
-                if d.get("accepted") or d.get("created"):
-                    # every newAccount REQUEST the CA accepted, whether it created the account or found it
+                if (d.get("accepted") or d.get("created")) and project.ca_answer(e)[0] == "ok":
+                    # every newAccount REQUEST the CA accepted AND answered, whether it created the account or found it
+                    # (a registration whose answer was lost has to be asked for again: the daemon never learnt the account URL)
                     out.append({"e": "RegReq", "key": d["thumb"], "ep": e["ep"]})
             elif ev == "CaReq" and e.get("resp_type") and "accountDoesNotExist" in str(e.get("resp_type")):
                 k = acct_key.get((e["ep"], (e.get("post") or {}).get("kid_acct")))
